@@ -207,9 +207,11 @@ fn wild_sub_lattice(spec: &Spec) -> Vec<V> {
     match spec {
         Spec::Rv { dim, .. } => {
             let mk = |a: f64, b: f64| V::Rv((0..*dim).map(|i| if i % 2 == 0 { a } else { b }).collect());
-            vec![mk(0.5, -0.5), mk(9.0, -9.0), mk(5.0, -5.0), mk(-1e9, 2.0)]
+            // (the last three: a hair beyond / inside the bound 5 of the C13 component boxes)
+            vec![mk(0.5, -0.5), mk(9.0, -9.0), mk(5.0, -5.0), mk(-1e9, 2.0), mk(5.0 + 1e-10, 0.0), mk(5.0 - 1e-10, -5.0 - 1e-12), mk(0.0, 5.0 + 1e-13)]
         }
-        Spec::So2 { .. } => vec![V::So2(0.3 + 2.0 * PI), V::So2(PI), V::So2(7.0), V::So2(-4.0 * PI + 2.4), V::So2(-3.0)],
+        // (2.5 is the upper angular bound of the bounded SO(2) components of C13)
+        Spec::So2 { .. } => vec![V::So2(0.3 + 2.0 * PI), V::So2(PI), V::So2(7.0), V::So2(-4.0 * PI + 2.4), V::So2(-3.0), V::So2(2.5 + 1e-10), V::So2(2.5 - 1e-10), V::So2(-1.0 - 1e-12)],
         Spec::So3 { .. } => {
             let r = quat_axis_angle([0.0, 0.0, 1.0], 40.0);
             let far = quat_axis_angle([1.0, 0.0, 0.0], 170.0);
